@@ -485,6 +485,12 @@ class Function(ClassDef):
 	def _has_annotation(self, *names: str) -> bool:
 		return len([True for decorator in self.decorators if decorator.path.tokens in names]) > 0
 
+	@classmethod
+	def _in_class_block(cls, via: Node) -> bool:
+		"""クラス直下の関数定義か判定 (期待するパス: 'class_def_raw.block.function_def')"""
+		elems = via._full_path.de_identify().elements
+		return len(elems) >= 3 and elems[-3] == 'class_def_raw'
+
 
 @Meta.embed(Node)
 class ClassMethod(Function):
@@ -493,7 +499,7 @@ class ClassMethod(Function):
 	def match_feature(cls, via: Node) -> bool:
 		# @see ClassDef.decorators
 		decorators = via._children('decorators') if via._exists('decorators') else []
-		return len(decorators) > 0 and decorators[0].as_a(Decorator).path.tokens == 'classmethod'
+		return 'classmethod' in [decorator.as_a(Decorator).path.tokens for decorator in decorators]
 
 	@property
 	def is_abstract(self) -> bool:
@@ -514,7 +520,7 @@ class Constructor(Function):
 	@override
 	def match_feature(cls, via: Node) -> bool:
 		# @see Function.symbol
-		return via._by('function_def_raw.name').tokens == '__init__'
+		return Function._in_class_block(via) and via._by('function_def_raw.name').tokens == '__init__'
 
 	@property
 	def is_abstract(self) -> bool:
@@ -534,6 +540,9 @@ class Method(Function):
 	@classmethod
 	@override
 	def match_feature(cls, via: Node) -> bool:
+		if not Function._in_class_block(via):
+			return False
+
 		# @see Function.symbol
 		if via._by('function_def_raw.name').tokens == '__init__':
 			return False
